@@ -749,6 +749,7 @@ func evalClauseOnActual(prog *Program, o *Obligation, actual map[string]interfac
 		results = append(results, h.val(r, fn.Signature.Results().At(i).Type()))
 	}
 	ec := x.evalCtxFor(x.contract, st, old, nil, params, fn.Signature, results, true)
+	ec.replay = true
 	var g *Term
 	if err := x.guard("re-evaluation", func() { g = ec.Bool(o.Clause.Expr) }); err != nil {
 		return "not-reproduced", err.Error()
